@@ -60,6 +60,13 @@ pub fn block(kind: &str, rng: &mut Rng, u: usize) -> (String, String) {
             let n = rng.range(2, 4) as usize;
             let members = distinct(rng, NAMES, 2, 3);
             let vals = distinct(rng, VALUE_NAMES, 2, 2);
+            let overloaded = rng.chance(2, 3);
+            let ovl = format!("pick{u}");
+            if overloaded && rng.chance(2, 3) {
+                decl.push_str(&format!("int {ovl}(int x) {{ return 100; }}\n"));
+                decl.push_str(&format!("int {ovl}(float x) {{ return 101; }}\n"));
+                body.push_str(&format!("sink += {ovl}((int)1) + {ovl}(1.0f);\n"));
+            }
             for i in 0..n {
                 decl.push_str(&format!("namespace NS{u}_{i} {{\n"));
                 for v in &vals {
@@ -69,6 +76,18 @@ pub fn block(kind: &str, rng: &mut Rng, u: usize) -> (String, String) {
                     decl.push_str(&format!(
                         "int {m}(int x) {{ return x + {} + {i}; }}\n",
                         vals[0]
+                    ));
+                }
+                // the same name overloaded inside several namespaces (and at the root below):
+                // every one of these scopes has to generate suffixes for it
+                if overloaded {
+                    decl.push_str(&format!("int {ovl}(int x) {{ return {i}; }}\n"));
+                    decl.push_str(&format!("int {ovl}(float x) {{ return {i} + 1; }}\n"));
+                    if rng.chance(1, 2) {
+                        decl.push_str(&format!("int {ovl}(uint x) {{ return {i} + 2; }}\n"));
+                    }
+                    body.push_str(&format!(
+                        "sink += NS{u}_{i}::{ovl}((int)1) + NS{u}_{i}::{ovl}(1.0f);\n"
                     ));
                 }
                 if rng.chance(1, 2) {
